@@ -50,6 +50,7 @@ class Run:
         self.functions = []
         self.notes = []
         self.engine_errors = []
+        self.engine_error_owners = []
         self.proof_lost = []
         self.paths = 0
         self.covered = set()
@@ -104,6 +105,7 @@ class Run:
                     paths = Explorer().run(program)
                 except OutsideSubset as exc:
                     self.engine_errors.append("%s: outside subset: %s" % (tag, exc))
+                    self.engine_error_owners.append(c)
                     continue
                 self._collect(paths, "contract", c.label)
                 if variant == "scalar":
@@ -141,6 +143,13 @@ class Run:
                     env[name] = fresh_array(ctx, name, (n,), "int" if kind == "int" else "real")
                 else:
                     env[name] = make_value(ctx, kind, name)
+
+        try:
+            _b = sig.bind(**env)
+            _b.apply_defaults()
+            env = dict(_b.arguments)      # parameters left to their defaults are visible to the clauses
+        except TypeError:
+            pass
 
         def at1(v, k):
             if isinstance(v, SArr):
@@ -192,6 +201,7 @@ class Run:
         envp = dict(env)
         envp.update(old)
         envp["result"] = result
+        envp["_locals"] = dict(getattr(interp, "top_frame", None).locals) if getattr(interp, "top_frame", None) else {}
         if variant == "array":
             envp = at_k0(envp, k0)
             for j, (cond, exc) in enumerate(c.raises):
@@ -235,9 +245,11 @@ class Run:
             paths = Explorer().run(program)
         except OutsideSubset as exc:
             self.engine_errors.append("%s: outside subset: %s" % (t.label, exc))
+            self.engine_error_owners.append(t)
             return
         except PyRaise as pr:
             self.engine_errors.append("%s: theorem program raised %r" % (t.label, pr.exc))
+            self.engine_error_owners.append(t)
             return
         self._collect(paths, "thm", t.label, canary=t.params.get("canary", False))
         self.trusted |= interp.trusted_used
@@ -362,13 +374,15 @@ def default_sampler(c, rng):
 def contract_check_concrete(c, args):
     """evaluate contract c on concrete args against the real function.
     returns (verdict, detail): verdict in 'skip' (requires false), 'ok', 'fail'"""
-    env = dict(args)
+    sig = inspect.signature(c.fn_inner)
+    b = sig.bind(**args)
+    b0 = sig.bind(**args)
+    b0.apply_defaults()
+    env = dict(b0.arguments)
     for r in c.requires:
         v = eval_clause_concrete(c, r, env)
         if v is not True:
             return "skip", None
-    sig = inspect.signature(c.fn_inner)
-    b = sig.bind(**args)
     import copy
     try:
         call_args = copy.deepcopy(b.args)
@@ -389,6 +403,8 @@ def contract_check_concrete(c, args):
     for a, v in args.items():
         env["old_" + a] = v
     for j, e in enumerate(c.ensures):
+        if "_locals" in e:
+            continue            # ghost clause about locals at exit: only meaningful for the verifier
         v = eval_clause_concrete(c, e, env)
         if v is not True:
             return "fail", {"clause": e, "index": j, "real_outcome": _short(out), "clause_value": v}
